@@ -132,6 +132,7 @@ class Ctx:
             import shutil
             shutil.rmtree(d, ignore_errors=True)
         os.makedirs(d, exist_ok=True)
+        self._workdirs = getattr(self, '_workdirs', []) + [d]
         return d
 
     def count(self, sig=None, nontrivial=True):
@@ -204,6 +205,10 @@ class Ctx:
         print('[%s] tier=%s seed=%d evaluations=%d distinct_nontrivial=%d violations=%d known=%d inconclusive=%d wall=%.1fs' % (
             self.pid, self.tier, self.seed, self.evals, len(self.sigs), len(self.violations), len(self.known_hits),
             self.extras.get('inconclusive_cases', 0), time.time() - self.t0))
+        if not self.violations and not os.environ.get('VERIF_KEEP'):     # a clean run leaves nothing behind (disk space is limited)
+            import shutil
+            for d in getattr(self, '_workdirs', []):
+                shutil.rmtree(d, ignore_errors=True)
         if self.violations:
             return 1
         if len(self.sigs) < floor or self.evals == 0:
@@ -307,7 +312,14 @@ def run_sharded(exe, base_args, ncases, on_line, on_death, seed, timeout_per_cas
         list(ex.map(work, range(shards)))
 
 
+def _only(items):
+    """debugging aid: VERIF_ONLY=k1,k2 restricts a case-parallel check to those case numbers"""
+    o = os.environ.get('VERIF_ONLY')
+    return [int(x) for x in o.split(',')] if o else items
+
+
 def pmap(fn, items, jobs=None):
+    items = _only(items)
     with ThreadPoolExecutor(max_workers=jobs or NJOBS) as ex:
         return list(ex.map(fn, items))
 
@@ -323,6 +335,7 @@ def pmap_proc(fn, items, jobs=None, chunk=2):
     """like pmap but in forked worker processes (for checks whose oracle is Python-heavy); fn's results must be picklable"""
     global _PFN
     import multiprocessing
+    items = _only(items)
     _PFN = fn
     with multiprocessing.get_context('fork').Pool(jobs or NJOBS) as pool:
         return pool.map(_pcall, list(items), chunksize=chunk)
